@@ -79,6 +79,11 @@ example : (sv1Decode [0xff, 0xd8, 0xff, 0xc3, 0x00, 0x0b, 0x02, 0x00, 0x01, 0x00
   rw [sv1Decode_eval 8 rfl rfl] <;> rfl
 example : dhtTable 3 [0x00, 0x03, 0, 0, 0, 0, 0, 0, 0, 0, 0, 0, 0, 0, 0, 0, 0, 1, 2, 3] = .error .err := rfl
 
+/-- regression anchor (C09, commit FIXME-SOF): a second frame header is an error -/
+example : (sv1Decode [0xff, 0xd8, 0xff, 0xc3, 0x00, 0x0b, 0x08, 0x00, 0x01, 0x00, 0x01, 0x01, 0x01, 0x11, 0x00,
+    0xff, 0xc3, 0x00, 0x0b, 0x08, 0x04, 0x00, 0x04, 0x00, 0x01, 0x01, 0x11, 0x00]).2 = .err := by
+  rw [sv1Decode_eval 8 rfl rfl] <;> rfl
+
 /-- (5) FULL: `jpeg/lossless.Decode` (marker loop, parseSOF3, parseDHT, parseSOS incl. the
     `data[2+component*2]` / `dcTableSelectors[component]` indices, first table lookup) -/
 theorem jll_decode_total (bs : Bytes) (s : Site) : (jllDecode bs).2 ≠ .panic s := jllDecode_total bs s
